@@ -180,20 +180,14 @@ static void run_huge(uint64_t idx, pv_rng* rng) {
     if (sd) {
         pv_world_begin("polyseed_crypt"); polyseed_crypt(sd, big); pv_world_end();
         PV_COUNT("evaluations", 1);
-        if (pv_w->nkdf != 1 || pv_w->kdf[0].pwlen > POLYSEED_STR_SIZE - 1) pv_violation("C14/huge-string/crypt", "a %llu-byte password: %d KDF calls, password length %zu", (unsigned long long)n, pv_w->nkdf, pv_w->nkdf ? pv_w->kdf[0].pwlen : 0);
-        /* whatever the library does with a password that does not fit its buffer, it must not depend on the length modulo 2^32:
-         * the same text cut to 4000 bytes (far beyond the buffer as well) has to give the same KDF input */
-        else {
-            uint8_t pw1[1024]; size_t l1 = pv_w->kdf[0].pwlen; memcpy(pw1, pv_w->kdf[0].pw, l1 < sizeof pw1 ? l1 : sizeof pw1);
-            char* shorter = malloc(4001); memcpy(shorter, big, 4000); shorter[4000] = 0;
-            polyseed_data* s2 = pv_seed_from_model(&m);
-            if (s2) { pv_api_crypt(s2, shorter);
-                if (pv_w->nkdf != 1 || pv_w->kdf[0].pwlen != l1 || memcmp(pv_w->kdf[0].pw, pw1, l1 < sizeof pw1 ? l1 : sizeof pw1))
-                    pv_violation("C14/huge-string/crypt-depends-on-length-modulo-2^32", "a %llu-byte password gives a %zu-byte KDF password, its first 4000 bytes alone a %zu-byte one", (unsigned long long)n, l1, pv_w->nkdf ? pv_w->kdf[0].pwlen : 0);
-                else PV_COUNT("huge.kdf_password_equals_that_of_the_first_4000_bytes", 1);
-                pv_api_free(s2); }
-            free(shorter);
-        }
+        /* an ASCII password is its own NFKD form.  Whether the library hands all of it to the KDF or as much as its buffer holds is its
+         * business (over-long passwords are not specified); but what it hands over must be the beginning of what was typed, and a
+         * beginning shorter than the buffer means that the length was mangled on the way (kept modulo 2^32, say) */
+        size_t l1 = pv_w->nkdf == 1 ? pv_w->kdf[0].pwlen : 0;
+        if (pv_w->nkdf != 1) pv_violation("C14/huge-string/crypt", "a %llu-byte password: %d KDF calls", (unsigned long long)n, pv_w->nkdf);
+        else if (memcmp(pv_w->kdf[0].pw, big, l1 < sizeof pv_w->kdf[0].pw ? l1 : sizeof pv_w->kdf[0].pw)) pv_violation("C14/huge-string/crypt-password-is-not-a-prefix-of-the-input", "a %llu-byte ASCII password: the %zu-byte KDF password is not its beginning", (unsigned long long)n, l1);
+        else if (l1 != n && l1 < POLYSEED_STR_SIZE - 1) pv_violation("C14/huge-string/crypt-password-shorter-than-the-buffer", "a %llu-byte ASCII password reaches the KDF as its first %zu bytes only (the buffer holds %d)", (unsigned long long)n, l1, POLYSEED_STR_SIZE - 1);
+        else PV_COUNT("huge.kdf_password_is_a_long_enough_prefix", 1);
         pv_api_free(sd);
     }
     PV_COUNT("huge.strings", 1); if (wrap) PV_COUNT("huge.strings_whose_length_is_a_valid_phrase_modulo_2^32", 1);
